@@ -1,4 +1,4 @@
-from dataclasses import InitVar, dataclass
+from dataclasses import InitVar, dataclass, replace
 from itertools import zip_longest
 from typing import Any, Generator
 
@@ -134,6 +134,8 @@ def _get_function_results(  # noqa: PLR0913
     if transforms is not None and transforms.variables:
         variables = transforms.variables.from_optimizer(variables)
     evaluator_result = evaluator(np.repeat(variables, realization_num, axis=0), context)
+    # The result object belongs to the evaluator, transform a shallow copy of it:
+    evaluator_result = replace(evaluator_result)
     if transforms is not None:
         if transforms.objectives is not None:
             evaluator_result.objectives = transforms.objectives.to_optimizer(
@@ -193,6 +195,8 @@ def _get_gradient_results(  # noqa: PLR0913
     if transforms is not None and transforms.variables:
         variables = transforms.variables.from_optimizer(variables)
     evaluator_result = evaluator(variables, context)
+    # The result object belongs to the evaluator, transform a shallow copy of it:
+    evaluator_result = replace(evaluator_result)
     if transforms is not None:
         if transforms.objectives is not None:
             evaluator_result.objectives = transforms.objectives.to_optimizer(
@@ -255,6 +259,8 @@ def _get_function_and_gradient_results(  # noqa: PLR0913
     if transforms is not None and transforms.variables:
         all_variables = transforms.variables.from_optimizer(all_variables)
     evaluator_result = evaluator(all_variables, context)
+    # The result object belongs to the evaluator, transform a shallow copy of it:
+    evaluator_result = replace(evaluator_result)
     if transforms is not None:
         if transforms.objectives is not None:
             evaluator_result.objectives = transforms.objectives.to_optimizer(
